@@ -138,7 +138,7 @@ func featureSetFor(on map[string]bool, all []string, style int) meta.FeatureSet 
 }
 
 func C11(c *core.Ctx) {
-	c.Rule = "complete enumeration of if-feature ASTs with ≤K operators (K=3 quick, K=4 thorough) over features {a,b,c} × 2 renderings × all 8 assignments (allow-list and deny-list configurations alternating, all-on for the all-true assignment), packed 400 guarded leaves per module; every token sequence up to length L over {a,b,(,),and,or,not} as a malformed stream (L=4 quick sample, L=5 thorough); every guardable statement kind; one deviation of every kind, on nodes written in place and on one of two expansions of a grouping (the other expansion must not move); the statement-kind module imports a module with a feature of its own (which imports a third) and includes a submodule that declares a feature; refines/augments of feature-disabled targets; cases and shorthand cases added by an augment inside a uses; lookup by name of the nodes of removed cases; deviations of a choice's default and of cases. non-trivial = expression with ≥1 operator; distinct by (rendering, assignment)"
+	c.Rule = "complete enumeration of if-feature ASTs with ≤K operators (K=3 quick, K=4 thorough) over features {a,b,c} × 2 renderings × all 8 assignments (allow-list and deny-list configurations alternating, all-on for the all-true assignment), packed 400 guarded leaves per module; every token sequence up to length L over {a,b,(,),and,or,not} as a malformed stream (L=4 quick sample, L=5 thorough); every guardable statement kind; one deviation of every kind, on nodes written in place and on one of two expansions of a grouping (the other expansion must not move); the statement-kind module imports a module with a feature of its own (which imports a third) and includes a submodule that declares a feature; refines/augments of feature-disabled targets; cases and shorthand cases added by an augment inside a uses; lookup by name of the nodes of removed cases; deviations of a choice's default and of cases. non-trivial = expression with ≥1 operator; distinct by (rendering, assignment); deviations with several deviate statements of one kind and of different kinds"
 	c.Assumptions = append(c.Assumptions,
 		"the Lean tokenizer model (blanks separate, parentheses are single tokens) is tied to the Go tokenizer only through the renderings generated here (regular and irregular blanks, parentheses with and without blanks)",
 		"parseRFC (recursive-descent recogniser, Lean, not proved complete) labels token sequences as inside/outside the RFC 7950 grammar")
@@ -582,6 +582,12 @@ func c11deviations(c *core.Ctx) {
 		{`deviation /one/gl { deviate add { unique "k u4"; } } deviation /two/gl { deviate add { unique "k u1"; } }`, "/one/gl", false, map[string]string{"unique": "u1|u2 u3|u4|k u4"}},
 		{`deviation /two/gl { deviate add { unique "k u1"; } } deviation /one/gl { deviate add { unique "k u4"; } }`, "/one/gl", false, map[string]string{"unique": "u1|u2 u3|u4|k u4"}},
 		{`deviation /one/gl { deviate add { unique "k u4"; } } deviation /two/gl { deviate add { unique "k u1"; } }`, "/two/gl", false, map[string]string{"unique": "u1|u2 u3|u4|k u1"}},
+		// several deviate statements of one kind in one deviation: each of them counts
+		{`deviation /top/c { deviate add { units "m"; } deviate add { default "dd"; } }`, "/top/c", false, map[string]string{"units": "m", "default": "dd"}},
+		{`deviation /top/c { deviate add { default "dd"; } deviate add { units "m"; } deviate add { must "../a"; } }`, "/top/c", false, map[string]string{"units": "m", "default": "dd", "must": "../a"}},
+		{`deviation /top/a { deviate replace { units "g"; } deviate replace { default "y"; } }`, "/top/a", false, map[string]string{"units": "g", "default": "y"}},
+		{`deviation /top/a { deviate delete { must "../b"; } deviate delete { must "../ll"; } }`, "/top/a", false, map[string]string{"must": "../c"}},
+		{`deviation /top/a { deviate delete { units "kg"; } deviate replace { default "y"; } deviate add { must "../sub"; } }`, "/top/a", false, map[string]string{"units": "", "default": "y", "must": "../b ;; ../c ;; ../ll ;; ../sub"}},
 		// the default of a choice; a case as the target of not-supported
 		{`deviation /pick { deviate replace { default p2; } }`, "/pick", false, map[string]string{"default": "p2"}},
 		{`deviation /pick { deviate delete { default p1; } }`, "/pick", false, map[string]string{"default": ""}},
